@@ -178,7 +178,7 @@ func (v *Voucher) DevicePublicKey() (crypto.PublicKey, error) {
 	if v.CertChain == nil {
 		return nil, nil
 	}
-	if len(*v.CertChain) == 0 {
+	if len(*v.CertChain) == 0 || (*v.CertChain)[0] == nil {
 		return nil, errors.New("empty cert chain")
 	}
 	return (*v.CertChain)[0].PublicKey, nil
@@ -213,6 +213,9 @@ func (v *Voucher) VerifyDeviceCertChain(roots *x509.CertPool) error {
 	}
 	chain := make([]*x509.Certificate, len(*v.CertChain))
 	for i, cert := range *v.CertChain {
+		if cert == nil {
+			return errors.New("device cert chain contains a null certificate")
+		}
 		chain[i] = (*x509.Certificate)(cert)
 	}
 	return verifyCertChain(chain, roots)
@@ -230,8 +233,16 @@ func (v *Voucher) VerifyCertChainHash() error {
 	}
 
 	cchash := v.Header.Val.CertChainHash
+	switch cchash.Algorithm {
+	case protocol.Sha256Hash, protocol.Sha384Hash:
+	default:
+		return fmt.Errorf("unsupported hash algorithm for device cert chain hash: %d", cchash.Algorithm)
+	}
 	digest := cchash.Algorithm.HashFunc().New()
 	for _, cert := range *v.CertChain {
+		if cert == nil {
+			return errors.New("device cert chain contains a null certificate")
+		}
 		if _, err := digest.Write(cert.Raw); err != nil {
 			return fmt.Errorf("error computing hash: %w", err)
 		}
